@@ -22,89 +22,11 @@
 (* MODE = "trace": recorded results of the real compute_scc (emission order *)
 (*   included) must equal the transcription's: conformance.                  *)
 (***************************************************************************)
-EXTENDS Graph, Json, IOUtils
+EXTENDS Algo, Json, IOUtils
 
 Mode == IOEnv.MODE
 QN   == atoi(IOEnv.QN)
 QD   == atoi(IOEnv.QD)
-
-(***************************************************************************)
-(* Tarjan, as vendored.  G : node -> Seq(node) (successors inside the       *)
-(* graph, list order), order : Seq(node) = iteration order of the graph.    *)
-(* One call of TStep = one iteration of `while queue`.                       *)
-(***************************************************************************)
-MinOf(a, b) == IF a < b THEN a ELSE b
-FirstNew(s, pre) == LET J == {j \in 1..Len(s) : s[j] \notin DOMAIN pre} IN IF J = {} THEN 0 ELSE Min(J)
-RECURSIVE LowFold(_, _, _, _, _, _)
-LowFold(s, j, v, pre, low, found) ==          \* the `for w in G[v]` loop that computes lowlink[v]; returns the number
-  IF j > Len(s) THEN low[v]
-  ELSE LET w == s[j] IN
-       IF w \in found THEN LowFold(s, j + 1, v, pre, low, found)
-       ELSE LET nv == IF pre[w] > pre[v] THEN MinOf(low[v], low[w]) ELSE MinOf(low[v], pre[w])
-            IN LowFold(s, j + 1, v, pre, [low EXCEPT ![v] = nv], found)
-RECURSIVE PopWhile(_, _, _, _)
-PopWhile(sq, pre, v, acc) ==                  \* while scc_queue and preorder[scc_queue[-1]] > preorder[v]: pop
-  IF Len(sq) > 0 /\ pre[sq[Len(sq)]] > pre[v] THEN PopWhile(SubSeq(sq, 1, Len(sq) - 1), pre, v, acc \cup {sq[Len(sq)]})
-  ELSE <<sq, acc>>
-Put1(f, k, x) == [y \in DOMAIN f \cup {k} |-> IF y = k THEN x ELSE f[y]]
-
-RECURSIVE TWhile(_, _), TFor(_, _, _, _)
-TWhile(G, st) ==
-  IF st.queue = <<>> THEN st
-  ELSE LET v == st.queue[Len(st.queue)]
-           i2 == IF v \in DOMAIN st.pre THEN st.i ELSE st.i + 1
-           pre2 == IF v \in DOMAIN st.pre THEN st.pre ELSE Put1(st.pre, v, st.i + 1)
-           fn == FirstNew(G[v], pre2)
-       IN IF fn # 0
-          THEN TWhile(G, [st EXCEPT !.i = i2, !.pre = pre2, !.queue = Append(st.queue, G[v][fn])])
-          ELSE LET low1 == Put1(st.low, v, pre2[v])
-                   lv == LowFold(G[v], 1, v, pre2, low1, st.found)
-                   low2 == [low1 EXCEPT ![v] = lv]
-                   q2 == SubSeq(st.queue, 1, Len(st.queue) - 1)
-               IN IF lv = pre2[v]
-                  THEN LET pw == PopWhile(st.sq, pre2, v, {v})
-                       IN TWhile(G, [i |-> i2, pre |-> pre2, low |-> low2, found |-> st.found \cup pw[2], sq |-> pw[1],
-                                     queue |-> q2, out |-> Append(st.out, pw[2])])
-                  ELSE TWhile(G, [i |-> i2, pre |-> pre2, low |-> low2, found |-> st.found, sq |-> Append(st.sq, v),
-                                  queue |-> q2, out |-> st.out])
-TFor(G, order, j, st) ==
-  IF j > Len(order) THEN st
-  ELSE IF order[j] \in st.found THEN TFor(G, order, j + 1, st)
-  ELSE TFor(G, order, j + 1, TWhile(G, [st EXCEPT !.queue = <<order[j]>>]))
-\* Seq of sets, in the order the generator yields them
-Tarjan(G, order) ==
-  TFor(G, order, 1, [i |-> 0, pre |-> <<>>, low |-> <<>>, found |-> {}, sq |-> <<>>, queue |-> <<>>, out |-> <<>>]).out
-
-(***************************************************************************)
-(* is_reachable_dfs(begin, end).  X : node -> Seq(name) forward targets     *)
-(* (names outside DOMAIN X are never expanded).                              *)
-(***************************************************************************)
-RECURSIVE Dfs(_, _, _, _)
-Dfs(X, stack, seen, end) ==
-  IF stack = <<>> THEN FALSE
-  ELSE LET b == stack[Len(stack)] rest == SubSeq(stack, 1, Len(stack) - 1) IN
-       IF b \in seen THEN Dfs(X, rest, seen, end)
-       ELSE IF b = end THEN TRUE
-       ELSE Dfs(X, IF b \in DOMAIN X THEN rest \o X[b] ELSE rest, seen \cup {b}, end)
-ReachDfs(X, a, z) == Dfs(X, X[a], {}, z)
-
-(***************************************************************************)
-(* _imm_doms(doms): repeated in-place subtraction, iteration in `order`.    *)
-(* The inner `for v in list(vs): vs -= idoms[v]` walks a snapshot of vs.    *)
-(***************************************************************************)
-RECURSIVE ISub(_, _, _, _), IPass(_, _, _, _), IFix(_, _, _)
-ISub(id, k, snap, j) == IF j > Len(snap) THEN id ELSE ISub([id EXCEPT ![k] = @ \ id[snap[j]]], k, snap, j + 1)
-IPass(id, order, j, changed) ==
-  IF j > Len(order) THEN <<id, changed>>
-  ELSE LET k == order[j]
-           snap == SelectSeq(order, LAMBDA v : v \in id[k])          \* list(vs): some order; ties cannot matter (checked)
-           id2 == ISub(id, k, snap, 1)
-       IN IPass(id2, order, j + 1, changed \/ Cardinality(id2[k]) < Cardinality(id[k]))
-IFix(id, order, fuel) ==
-  IF fuel = 0 THEN id ELSE LET p == IPass(id, order, 1, FALSE) IN IF p[2] THEN IFix(p[1], order, fuel - 1) ELSE p[1]
-ImmDoms(D, order) == IFix([k \in DOMAIN D |-> D[k] \ {k}], order, Cardinality(DOMAIN D) + 2)
-\* the `[v] = vs` unpacking raises unless every remaining set has at most one element
-ImmDomsOk(D, order) == \A k \in DOMAIN D : Cardinality(ImmDoms(D, order)[k]) <= 1
 
 (***************************************************************************)
 (* Definitions (the contract side).                                          *)
@@ -159,7 +81,7 @@ InterAll(SS, U) == {x \in U : \A S \in SS : x \in S}
 Cases == IF Mode = "trace" THEN JsonDeserialize(IOEnv.CASES) ELSE <<>>
 TraceBad(c) ==
   LET order == c.order
-      G == [u \in DOMAIN c.g |-> SelectSeq(c.f[u], LAMBDA t : t \in DOMAIN c.g)]
+      G == [u \in DOMAIN c.g |-> SelectSeq(Without(c.g[u], SeqSet(c.b[u])), LAMBDA t : t \in DOMAIN c.g)]
       t == Tarjan(G, order)
   IN IF Len(t) = Len(c.scc) /\ \A j \in 1..Len(t) : t[j] = SeqSet(c.scc[j]) THEN {} ELSE {"compute_scc-order"}
 
